@@ -2,7 +2,7 @@
 # Compile every Lean lemma file (Lean 4.33 + Mathlib, offline) and scan for sorry/admit/axiom.
 set -e
 cd "$(dirname "$0")"
-for f in Lindig.lean Worklist.lean Seq.lean Bits.lean Upset.lean Text.lean TextCsv.lean; do
+for f in Lindig.lean Worklist.lean Seq.lean Bits.lean BitsBin.lean Upset.lean Text.lean TextCsv.lean; do
   if grep -n -E "\b(sorry|admit)\b|^axiom " "$f"; then echo "forbidden keyword in $f"; exit 1; fi
   out=$(cd /opt/veriftools/mathlib4 && lake env lean "$OLDPWD/$f" 2>&1) || { echo "$out" | tail -20; echo "lean failed on $f"; exit 1; }
   if echo "$out" | grep -q "error"; then echo "$out" | grep -A3 error | head -20; exit 1; fi
